@@ -1012,7 +1012,7 @@ pub fn c17(big: bool) -> BoxedStrategy<Case> {
         1 => (0u32..10).prop_map(Cause::Cancel),
     ];
     let base = OpWeights { send: 22, call: 22, ping: 4, convert: 10, yield_: 4, sleep: 3, give: 2, drop: 3, stop: 6, halt: 1, await_: 2, join: 12, consume: 4, detach: 3, max_sleep: 4, ..MSG_WEIGHTS };
-    let op = mixed_ops(base, vec![(5, msg_op(1, 1, ctx_work(3, 3, 0))), (3, h().prop_map(|h| ClientOp::JoinStash { h }).boxed()), (3, h().prop_map(|h| ClientOp::JoinDiscard { h }).boxed())]);
+    let op = mixed_ops(base, vec![(5, msg_op(1, 1, ctx_work(3, 3, 0))), (3, h().prop_map(|h| ClientOp::JoinStash { h }).boxed()), (3, h().prop_map(|h| ClientOp::JoinDiscard { h }).boxed()), (3, h().prop_map(|h| ClientOp::JoinLazyDetach { h }).boxed()), (4, Just(ClientOp::AwaitLazy).boxed())]);
     (spawn, cause, 1usize..=3, slow_callback())
         .prop_flat_map(move |(spawn, cause, n, stopped)| (Just(spawn), Just((cause, stopped)), grants(n, true, 1), vec(vec(op.clone(), 3..=max_ops), n..=n), schedule(if big { 96 } else { 48 })))
         .prop_map(|(mut spawn, (cause, stopped), grants, clients, schedule)| {
